@@ -133,6 +133,11 @@ def _constructs():
     # rust calls
     out.append(("unwrap-abuse", ".rs", {}, "rs-unwrap", ["fn target_fn(opt: Option<u32>) -> u32 {", "    let prepared = prepare();", "@@    let v = opt.unwrap();", "    v + prepared", "}"], "unwrap"))
     out.append(("clone-abuse", ".rs", {}, "rs-clone-loop", ["fn target_fn(items: Vec<String>, y: String) {", "    for it in items.iter() {", "@@        consume(y.clone());", "    }", "    touch(&y);", "}"], "clone"))
+    out.append(("clone-abuse", ".rs", {}, "rs-clone-wrapped-let", ["fn target_fn(source: String) -> usize {", "    let copied: String =", "@@        source.clone();", "    copied.len()", "}"], "clone"))
+    out.append(("unwrap-abuse", ".rs", {}, "rs-unwrap-wrapped", ["fn target_fn(opt: Option<u32>) -> u32 {", "@?    let v = opt", "@@        .unwrap();", "    v", "}"], "unwrap"))
+    out.append(("magic-numbers", ".py", {}, "py-binop-continuation", ["def target_fn(first):", "    return (first", "@@            + 3601)"], "3601"))
+    out.append(("magic-numbers", ".py", {}, "py-kwarg-multi-line", ["def target_fn():", "    return compute(", "        first,", "@@        limit=3601,", "    )"], "3601"))
+    out.append(("magic-numbers", ".py", {}, "py-dict-multi-line", ["def target_fn():", "    return {", "        'a': first,", "@@        'b': 3601,", "    }"], "3601"))
     out.append(("blocking-async", ".rs", {}, "rs-blocking", ["async fn target_fn(path: &str) -> Res {", "    let prepared = prepare();", "@@    let s = std::fs::read_to_string(path)?;", "    Ok(s)", "}"], "read_to_string"))
     return out
 
@@ -194,9 +199,12 @@ def run_item(item) -> Acc:
         for i in item["idx"]:
             cmd, ext, cfg, cname, lines, token = cons[i]
             for above in (0, 1, 3):
-                src, want = [], None
+                src, want, also = [], None, set()
                 src += [""] * above
                 for ln in lines:
+                    if ln.startswith("@?"):  # the call expression starts here: an acceptable line too
+                        also.add(len(src) + 1)
+                        ln = ln[2:]
                     if ln.startswith("@@"):
                         want = len(src) + 1
                         ln = ln[2:]
@@ -221,7 +229,7 @@ def run_item(item) -> Acc:
                 acc.outcome((cname, above, [t[2] for t in mine]))
                 if not mine:
                     acc.fail({**sig, "mode": "construct-not-reported"}, case, f"a violation at line {want}", [list(t[:3]) for t in vs][:3], "the generated construct is not reported at all (cannot judge its line)")
-                elif not any(t[2] == want for t in mine):
+                elif not any(t[2] == want or t[2] in also for t in mine):
                     acc.fail({**sig, "mode": "line-is-not-the-construct-line"}, case, want, sorted({t[2] for t in mine}), f"{src[want - 1].strip()!r} is the construct's line")
                 _generic(acc, cmd, ext, "shifted" if above else "plain", files, vs, case)
         acc.sample({"constructs": [cons[i][3] for i in item["idx"]], "lines_above": [0, 1, 3]})
@@ -229,11 +237,16 @@ def run_item(item) -> Acc:
         block = ["    alpha = fetch_alpha(source)", "    beta = alpha.transform(stage_one)", "    gamma = combine(alpha, beta)", "    delta.append(gamma)"]
         for lang, ext, opener, closer in (("python", ".py", "def {n}(source, delta):", []), ("ts", ".ts", "function {n}(source, delta) {{", ["}"])):
             blk = block if lang == "python" else ["  const alpha = fetchAlpha(source);", "  const beta = alpha.transform(stageOne);", "  const gamma = combine(alpha, beta);", "  delta.push(gamma);"]
-            for above in (0, 2):
+            for above in (0, 2, "doc"):
                 for gap in (0, 1):
-                    a = [""] * above + [opener.format(n="first_handler")] + ["    unique_one = make_one(source)" if lang == "python" else "  const uniqueOne = makeOne(source);"] + ([""] * gap) + blk + closer + [""]
+                    if above == "doc":
+                        doc = ['"""Module text."""', ""] if lang == "python" else ["/**", " * Describes the handler.", " * @param source input", " */"]
+                        above_n = len(doc)
+                    else:
+                        doc, above_n = [""] * above, above
+                    a = doc + [opener.format(n="first_handler")] + ["    unique_one = make_one(source)" if lang == "python" else "  const uniqueOne = makeOne(source);"] + ([""] * gap) + blk + closer + [""]
                     b = [opener.format(n="second_handler")] + blk + closer + [""]
-                    first_a = above + 2 + gap + 1
+                    first_a = above_n + 2 + gap + 1
                     files = {f"a{ext}": "\n".join(a) + "\n", f"b{ext}": "\n".join(b) + "\n"}
                     vs, r = _run("dry", files, {"dry": {"enabled": True, "min_duplicate_lines": 4}})
                     acc.case()
